@@ -315,6 +315,30 @@ def handle (j : Json) : Except String Json := do
       | .names ns => Json.mkObj [("names", jArr (ns.map Json.str))]
       | .macro v => Json.mkObj [("macro", match v with | some n => jNat n | none => Json.null)]
     pure (Json.mkObj [("obs", jArr (obs.map jo)), ("cooks", jNat w.tpl.cooks)])
+  | "cache" =>
+    -- two writers of one entry under a schedule of events
+    let entry ← getS j "entry"
+    let wr (k : String) : Except String Sys.Cache.Writer := do
+      let o ← j.getObjVal? k
+      pure { src := ← (← o.getObjVal? "src").getNat?, tmp := ← (← o.getObjVal? "tmp").getStr? }
+    let a ← wr "a"
+    let b ← wr "b"
+    let evs ← match j.getObjVal? "evs" with
+      | .ok (.arr x) => x.toList.mapM (fun e => match e with
+          | .str "stepA" => pure Sys.Cache.Ev.stepA
+          | .str "stepB" => pure Sys.Cache.Ev.stepB
+          | .str "crashA" => pure Sys.Cache.Ev.crashA
+          | .str "crashB" => pure Sys.Cache.Ev.crashB
+          | _ => throw "cache event")
+      | _ => throw "evs"
+    let s := Sys.Cache.run entry { fs := [], a := a, b := b } evs
+    let tag : Sys.Cache.Content → String
+      | .empty => "empty"
+      | .header => "header"
+      | .torn k => s!"torn:{k}"
+      | .full k => s!"full:{k}"
+    let names := [entry, a.tmp, b.tmp].eraseDups
+    pure (Json.mkObj (names.filterMap (fun n => (s.fs.get n).map (fun c => (n, Json.str (tag c))))))
   | "loader" =>
     let sp ← match j.getObjVal? "search_path" with
       | .ok (.arr a) => a.toList.mapM (fun x => x.getStr?)
